@@ -719,16 +719,28 @@ Ltac crush_call :=
   unfold sconnect, swrite, sclose, set_h, set_host, set_port, set_atyp, set_buf, crash; cbn;
   case_ifs; cbn; auto; try lia.
 
-Lemma callx_wf fx s d : wf s -> wf (callx fx s d).
+Lemma call_wf s d : wf s -> wf (call s d).
 Proof.
   destruct s as [h need buf host port atyp tr out req early cr oo].
-  unfold wf; cbn. intros Hw. destruct fx, h, tr, cr; crush_call.
+  unfold wf; cbn. intros Hw. destruct h, tr, cr; crush_call.
+Qed.
+
+Lemma callx_wf fx s d : wf s -> wf (callx fx s d).
+Proof.
+  intros Hw. unfold callx, fixup. destruct (fx && k_tr s && negb (k_tr (call s d))).
+  - exact I.
+  - apply call_wf. exact Hw.
+Qed.
+
+Lemma call_oof s d : k_oof (call s d) = k_oof s.
+Proof.
+  destruct s as [h need buf host port atyp tr out req early cr oo].
+  destruct h, tr, cr; crush_call.
 Qed.
 
 Lemma callx_oof fx s d : k_oof (callx fx s d) = k_oof s.
 Proof.
-  destruct s as [h need buf host port atyp tr out req early cr oo].
-  destruct fx, h, tr, cr; crush_call.
+  unfold callx, fixup. destruct (fx && k_tr s && negb (k_tr (call s d))); cbn; apply call_oof.
 Qed.
 
 Lemma k_buf_callx fx s d : k_buf (callx fx s d) = k_buf s.
@@ -736,11 +748,18 @@ Proof.
   unfold callx, fixup. destruct (fx && k_tr s && negb (k_tr (call s d))); cbn; apply k_buf_call.
 Qed.
 
+Lemma call_zr s d : k_crash (call s d) = true \/ (zr (call s d) <= zr s)%nat.
+Proof.
+  destruct s as [h need buf host port atyp tr out req early cr oo].
+  unfold zr; cbn. destruct h, tr, cr; crush_call.
+Qed.
+
 Lemma callx_zr fx s d :
   k_crash (callx fx s d) = true \/ (zr (callx fx s d) <= zr s)%nat.
 Proof.
-  destruct s as [h need buf host port atyp tr out req early cr oo].
-  unfold zr; cbn. destruct fx, h, tr, cr; crush_call.
+  unfold callx, fixup. destruct (fx && k_tr s && negb (k_tr (call s d))).
+  - right. unfold zr; cbn. lia.
+  - apply call_zr.
 Qed.
 
 Lemma callx_zr0 fx s :
@@ -851,10 +870,3 @@ Proof.
   cbn [fold_left]. apply IH. unfold feed. destruct (k_crash s || negb (k_tr s)); [exact Hs|].
   apply data_received_wf. exact Hs.
 Qed.
-
-Print Assumptions socks_parse_spec.
-Print Assumptions socks_clean_fixed.
-Print Assumptions socks_closed_no_request_fixed.
-Print Assumptions socks_clean_head_refuted.
-Print Assumptions pump_no_oof.
-Print Assumptions feed_all_no_oof.
